@@ -81,6 +81,14 @@ PROPS = {
         "assumptions": [],
         "partial": ["acceptance of the merged proof list for secret = user share + server share is established by replay + oracle over all exchanges (algebraic completeness theorem pending, as for C04)"],
     },
+    "C19": {
+        "suite": "C19", "ref_sample": 60, "mismatch_is_violation": True,
+        "trusted": ["math/big (GCD, Exp, ModInverse, ProbablyPrime, Jacobi used as reference oracle in the harness)"],
+        "assumptions": ["ProbablyPrime is an oracle: random primes / safe primes are correct relative to it"],
+        "partial": ["Legendre/Jacobi: theorem for odd primes < 400 only (quadratic reciprocity not available); exhaustive comparison with math/big.Jacobi for p < 2^12",
+                    "four squares, PrimeSqrt, ModSqrt: not modelled; checked on exhaustive small domains against their defining equations and brute force (exploration, not proof)",
+                    "FastMod termination within the iteration budget: finite-domain theorem (p < 130, x < 3000) + correspondence"],
+    },
     "C15": {
         "suite": "C15",
         "mismatch_is_violation": True,   # the Coq definition is the property's reference
